@@ -126,7 +126,18 @@ VALUES = [
 
 
 # ----------------------------------------------------------------------------- reference decoders
-MASK, TMASK, INVALID = "MASK", "TMASK", "Invalid"
+class _Flag:
+    """Reference flags are their own kind of object: never equal to a string value that happens to spell their name."""
+
+    def __init__(self, name):
+        self.name = name
+
+    def __repr__(self):
+        return "<flag %s>" % self.name
+
+
+MASK, TMASK, INVALID = _Flag("MASK"), _Flag("TMASK"), _Flag("Invalid")
+_FLAGS = {"MASK": MASK, "TMASK": TMASK, "Invalid": INVALID}
 RW_TYPES = ("RAM_RW", "NVM_RW", "NVM_RW_L", "NVM_RW_P")
 LIGHTDIST = {0: "not specified", 1: "Type I", 2: "Type II", 3: "Type III", 4: "Type IV", 5: "Type V"}
 
@@ -203,5 +214,5 @@ def ref_decode(row, raw):
 def lib_norm(v):
     """Library result -> comparable plain value (FlagValue -> its name)."""
     if type(v).__name__ == "FlagValue":
-        return v.value
+        return _FLAGS[str(v.value)]
     return v
